@@ -7,6 +7,10 @@
 //	free    : Lock = TryLock + durable park on a channel (so a synctest bubble can go idle
 //	          while somebody waits for a webrtc mutex); Yield = no-op.
 //	perturb : as free, plus seeded runtime.Gosched() at sites.
+//	plain   : (race-detector runs) every wrapper is the original operation preceded by a
+//	          perturbation point; no registry, no shared counter, no atomics — shim-level
+//	          synchronisation would give the race detector happens-before edges the program
+//	          does not have and hide its races.
 //	coop    : a Sched owns the run; goroutines reaching a focused site park and the
 //	          scheduler releases exactly one at a time, chosen from its PRNG / script.
 package simrt
@@ -14,6 +18,7 @@ package simrt
 import (
 	"bytes"
 	"fmt"
+	"math/rand/v2"
 	"runtime"
 	"sort"
 	"strconv"
@@ -68,6 +73,27 @@ func Reset() {
 	NYield.Store(0)
 	NGosched.Store(0)
 }
+
+// Plain switches the shim to plain mode. Set it before any goroutine of the run exists and
+// clear it after they are gone (it is a plain variable on purpose).
+var Plain bool
+
+// PlainYieldOneIn / PlainSleepOneIn: a perturbation point yields the processor / sleeps for a
+// few microseconds with these odds (0 = never). The coin is the runtime's per-thread random
+// source (math/rand/v2 top-level functions): not seeded, but free of synchronisation.
+var PlainYieldOneIn, PlainSleepOneIn uint64 = 4, 64
+
+func plainPoint() {
+	if n := PlainYieldOneIn; n != 0 && rand.Uint64N(n) == 0 {
+		runtime.Gosched()
+	}
+	if n := PlainSleepOneIn; n != 0 && rand.Uint64N(n) == 0 {
+		time.Sleep(time.Duration(1+rand.Uint64N(200)) * time.Microsecond)
+	}
+}
+
+type plainLocker interface{ Lock() }
+type plainRLocker interface{ RLock() }
 
 // SetPerturb enables (seed != 0) or disables seeded Gosched perturbation.
 func SetPerturb(seed uint64) { perturbSeed.Store(seed) }
@@ -178,7 +204,14 @@ func release(k unsafe.Pointer) {
 }
 
 // Lock replaces X.Lock() for sync.Mutex and sync.RWMutex.
-func Lock(m tryLocker, site string) { acquire(key(m), m.TryLock, site) }
+func Lock(m tryLocker, site string) {
+	if Plain {
+		plainPoint()
+		m.(plainLocker).Lock()
+		return
+	}
+	acquire(key(m), m.TryLock, site)
+}
 
 // afterRelease is a schedule point right after a critical section ends (coop mode only): a
 // task can be preempted between releasing a lock and whatever it does next with the state it
@@ -190,13 +223,38 @@ func afterRelease(site string) {
 }
 
 // Unlock replaces X.Unlock().
-func Unlock(m tryLocker, site string) { k := key(m); m.Unlock(); release(k); afterRelease(site) }
+func Unlock(m tryLocker, site string) {
+	if Plain {
+		m.Unlock()
+		return
+	}
+	k := key(m)
+	m.Unlock()
+	release(k)
+	afterRelease(site)
+}
 
 // RLock replaces X.RLock().
-func RLock(m tryRLocker, site string) { acquire(key(m), m.TryRLock, site) }
+func RLock(m tryRLocker, site string) {
+	if Plain {
+		plainPoint()
+		m.(plainRLocker).RLock()
+		return
+	}
+	acquire(key(m), m.TryRLock, site)
+}
 
 // RUnlock replaces X.RUnlock().
-func RUnlock(m tryRLocker, site string) { k := key(m); m.RUnlock(); release(k); afterRelease(site) }
+func RUnlock(m tryRLocker, site string) {
+	if Plain {
+		m.RUnlock()
+		return
+	}
+	k := key(m)
+	m.RUnlock()
+	release(k)
+	afterRelease(site)
+}
 
 var onceHeld = map[unsafe.Pointer]bool{}
 
@@ -204,6 +262,11 @@ var onceHeld = map[unsafe.Pointer]bool{}
 // other on the Once's internal mutex, which is not a durable block inside a bubble (and the
 // running one may be parked by the scheduler): callers are serialised here first, waiting durably.
 func OnceDo(o *sync.Once, f func(), site string) {
+	if Plain {
+		plainPoint()
+		o.Do(f)
+		return
+	}
 	k := unsafe.Pointer(o)
 	acquire(k, func() bool { // called with regMu held
 		if onceHeld[k] {
@@ -225,6 +288,10 @@ func OnceDo(o *sync.Once, f func(), site string) {
 // Yield is a schedule point inserted before atomics, after blocking receives and at
 // goroutine starts.
 func Yield(site string) {
+	if Plain {
+		plainPoint()
+		return
+	}
 	NYield.Add(1)
 	sitePoint(site)
 }
